@@ -2,7 +2,8 @@
 
 use std::{fmt, future::Future, marker::PhantomData};
 
-use crux_core::{command, Command};
+use async_trait::async_trait;
+use crux_core::{command, command::CommandContext};
 use http_types::{
     convert::DeserializeOwned,
     headers::{HeaderName, ToHeaderValues},
@@ -13,9 +14,25 @@ use serde::Serialize;
 use crate::{
     expect::{ExpectBytes, ExpectJson, ExpectString, ResponseExpectation},
     middleware::Middleware,
-    protocol::{HttpRequest, HttpResult, ProtocolRequestBuilder},
-    HttpError, Request, Response, ResponseAsync,
+    protocol::{EffectSender, HttpRequest, HttpResult},
+    Client, HttpError, Request, Response,
 };
+
+/// Sends the requests of a [`Client`] as effects of the command that is being built
+struct CommandSender<Effect, Event> {
+    context: CommandContext<Effect, Event>,
+}
+
+#[async_trait]
+impl<Effect, Event> EffectSender for CommandSender<Effect, Event>
+where
+    Effect: Send + From<crux_core::Request<HttpRequest>> + 'static,
+    Event: Send + 'static,
+{
+    async fn send(&self, effect: HttpRequest) -> HttpResult {
+        self.context.request_from_shell(effect).await
+    }
+}
 
 pub struct Http<Effect, Event> {
     effect: PhantomData<Effect>,
@@ -589,24 +606,15 @@ where
     > {
         let req = self.req.expect("RequestBuilder::build called twice");
 
-        command::RequestBuilder::new(|ctx| async move {
-            let operation = req
-                .into_protocol_request()
+        command::RequestBuilder::new(|context| async move {
+            // Send through a client, as the capability API does, so that the middleware
+            // attached to the request runs; the client's requests become effects of this command.
+            let client = Client::new(CommandSender { context });
+            let response = client.send(req).await?;
+
+            Response::<Vec<u8>>::new(response)
                 .await
-                .expect("should be able to convert request to protocol request");
-
-            let result = Command::request_from_shell(operation)
-                .into_future(ctx)
-                .await;
-
-            match result {
-                HttpResult::Ok(response) => {
-                    Response::<Vec<u8>>::new(ResponseAsync::from_protocol(response)?)
-                        .await
-                        .and_then(|r| self.expectation.decode(r))
-                }
-                HttpResult::Err(error) => Err(error),
-            }
+                .and_then(|r| self.expectation.decode(r))
         })
     }
 
